@@ -4,6 +4,7 @@ critical section; the admission tests require 'no writer active' / 'nobody execu
 after every wake-up), HANDOFF (after a thread leaves the executing table or a waiter gives up, a notify routine is reachable in the same critical section)."""
 import re
 from msa import guards as G
+from msa import ip as IP
 from msa import pair as P
 from msa import ast as A
 from msa import cfg as C
@@ -87,21 +88,32 @@ def run(res, tier):
            message='IsOkayForWriterThreadToExecuteNow can return true while other threads hold the lock: a writer runs together with readers or another writer')
     # ---------------------------------------------------------------------------------- registrations
     n_reg = 0
+    RWS = r'^muscle::ReaderWriterMutex::'
     for (fname, test) in (('LockReadOnlyAux', 'IsOkayForReaderThreadsToExecuteNow'), ('LockReadWriteAux', 'IsOkayForWriterThreadToExecuteNow')):
         f = fx.fn1(RW + '::' + fname)
-        flow = cl.flow(f)
-        for c in f.walk():
-            if c['k'] == 'CXXMemberCallExpr' and (c.get('q') or '') == RW + '::GetOrAllocateThreadState' and c.args() and A.strip_casts(c.args()[0]).get('n') == '_executingThreads':
-                n_reg += 1
-                adm = None
-                for (n, pol) in G.atoms_at(f, c):
-                    if n.is_call() and (n.get('q') or '') == RW + '::' + test and pol:
-                        adm = n
-                same_cs = adm is not None and bool(guard_ids(flow, f, adm) & guard_ids(flow, f, c))
-                res.ob('ADMIT', f.where(c), 'registration in _executingThreads (%s line %s) is behind %s() == true under the same guard' % (fname, c.get('l'), test), adm is not None and same_cs, function=f.q,
-                       how='admission test at line %s, guard object %s' % (adm.get('l') if adm else '?', sorted(guard_ids(flow, f, c))), key='ADMIT|%s|register:%d' % (f.q, n_reg),
-                       message='%s registers the calling thread as executing at line %s without the true edge of %s() in the same critical section: the lock can be entered while it must be excluded'
-                               % (f.q, c.get('l'), test))
+        # the registration may sit in the Lock*Aux method or in a private helper split off it (single call site; msa/ip.py)
+        for g_ in IP.scope(fx, f, RWS, single_caller=True):
+            flow = cl.flow(g_)
+            for c in g_.walk():
+                if c['k'] == 'CXXMemberCallExpr' and (c.get('q') or '') == RW + '::GetOrAllocateThreadState' and c.args() and A.strip_casts(c.args()[0]).get('n') == '_executingThreads':
+                    n_reg += 1
+                    adm = None
+                    for (n, pol) in IP.atoms_at_ip(fx, f, g_, c, RWS):
+                        if n.is_call() and (n.get('q') or '') == RW + '::' + test and pol:
+                            adm = n
+                    same_cs = False
+                    if adm is not None:
+                        if adm.func is g_:
+                            same_cs = bool(guard_ids(flow, g_, adm) & guard_ids(flow, g_, c))
+                        else:
+                            # the test dominates the call of the helper in the caller; the helper is entered with the lock held and the call sits in the test's critical section
+                            h_ = adm.func
+                            sites = [cs for (hh, cs) in IP.call_sites_of(fx, g_, RWS) if hh is h_]
+                            same_cs = LOCK in (cl.entry.get(g_.id) or ()) and bool(sites) and bool(guard_ids(cl.flow(h_), h_, adm) & guard_ids(cl.flow(h_), h_, sites[0]))
+                    res.ob('ADMIT', g_.where(c), 'registration in _executingThreads (%s line %s) is behind %s() == true under the same guard' % (g_.q.split('::')[-1], c.get('l'), test), adm is not None and same_cs, function=f.q,
+                           how='admission test at line %s, guard object %s' % (adm.get('l') if adm else '?', sorted(guard_ids(flow, g_, c))), key='ADMIT|%s|register:%d' % (f.q, n_reg),
+                           message='%s registers the calling thread as executing at line %s without the true edge of %s() in the same critical section: the lock can be entered while it must be excluded'
+                                   % (g_.q, c.get('l'), test))
     if n_reg < 4:
         raise AnalysisBroken('ADMIT: expected 4 registrations of new threads, found %d' % n_reg)
     # recursive fast paths: increments of an existing entry are behind `ts` non-null from _executingThreads.Get(tid)
